@@ -70,6 +70,8 @@ class Gen:
             budget -= 1
             if ispkg:
                 names = rng.sample(["_b", "core", "d", "e", "sub", "zz", "api"], rng.randint(1, 3))
+                if rng.random() < 0.12:
+                    names[0] = q.split(".")[0]      # a sub-module named like the root package (pkg/pkg.py)
                 for n in sorted(names):        # System.addPackage sorts directory entries
                     if budget <= 0:
                         break
@@ -197,6 +199,8 @@ class Gen:
             kind = rng.choice(["class", "class", "func", "var", "ifdup", "try"])
             if kind == "class":
                 name = rng.choice(used) if used and rng.random() < self.k.dup else rng.choice(CLASSN)
+                if rng.random() < 0.06:
+                    name = q.split(".")[0]          # a class named like the root package
                 bases = []
                 for _b in range(rng.choice([0, 0, 1, 1, 2])):
                     cands = imported + mydefs
